@@ -8,6 +8,10 @@ op  = {"op": "fit", "fam": "daily"|"billing"|"hourly"|"caltrack", "ds": int, "cf
     | {"op": "predict", "ref": index of an earlier fit op}
     | {"op": "rng", "k": int, "n": int}          np.random.seed(k) then n draws from the global generator
     | {"op": "unrelated", "what": "pyrandom"|"dataobj"|"reload"|"npdraw"|"sort"}
+    | {"op": "new", "cfg": str, "seed": int|None}      construct an HourlyModel now, use it later (object number = count so far)
+    | {"op": "fitobj", "obj": k, "ds": int}            fit object k (then to_json + fixed prediction, as for "fit")
+    | {"op": "tojson", "obj": k}                       to_json() of the fitted object k
+    | {"op": "fromjson", "obj": k}                     HourlyModel.from_json(object k .to_json()): a new object
 """
 import hashlib
 import json
@@ -135,6 +139,14 @@ def shared_defaults_len():
     return n
 
 
+def observe_hourly(m, base, rep):
+    drawn = int(m.settings._seed)
+    m.fit(base)
+    js = m.to_json()
+    pred = m.predict(rep)
+    return {"json": sha(js), "pred": frame_sha(pred), "len": len(js), "json_noseed": sha(strip_seed(js)), "drawn": drawn}
+
+
 def do_fit(op):
     fam = op["fam"]
     base, rep = dataset(fam, op["ds"])
@@ -167,6 +179,7 @@ def main():
     out = []
     fitted = {}
     reloadable = []
+    objs = []
     rng0 = rng_digest()
     for i, op in enumerate(JOB["ops"]):
         t1 = time.time()
@@ -179,6 +192,19 @@ def main():
             elif op["op"] == "predict":
                 m, rep = fitted[op["ref"]]
                 obs = {"pred": frame_sha(m.predict(rep))}
+            elif op["op"] == "new":
+                objs.append(new_model("hourly", op["cfg"], op.get("seed")))
+                obs = {}
+            elif op["op"] == "fitobj":
+                base, rep = dataset("hourly", op["ds"])
+                obs = observe_hourly(objs[op["obj"]], base, rep)
+            elif op["op"] == "tojson":
+                objs[op["obj"]].to_json()
+                obs = {}
+            elif op["op"] == "fromjson":
+                m = objs[op["obj"]]
+                objs.append(type(m).from_json(m.to_json()))
+                obs = {}
             elif op["op"] == "rng":
                 np.random.seed(op["k"])
                 if op["n"]:
